@@ -227,6 +227,8 @@ spif_mbuff_init_from_fp(spif_mbuff_t self, FILE *fp)
     } else {
         file_size = ftell(fp);
         fseek(fp, file_pos, SEEK_SET);
+        /* Only what lies ahead of the current position can be read. */
+        file_size -= file_pos;
         LOWER_BOUND(file_size, 0);
         if (file_size <= 0) {
             spif_mbuff_init(self);
